@@ -95,8 +95,9 @@ def run_family(ctx: Ctx, check_id: str, programs: Sequence[Tuple[str, str, Dict[
         common.merge_counts(cov.setdefault("counters", {}), r.get("extra", {}))
         if r["queries"]["unknown"]:
             outcome.inconclusive.append(f"{check_id}:{r['name']} ({r['queries']['unknown']} unknown)")
-        if len(cov["samples"]) < max_samples and r["nontrivial"] and not r["findings"]:
-            cov["samples"].append({"program": r["src"], "paths": r["paths"], "accepting": r["accepting"], "queries": r["queries"], "verdict": "no disagreement"})
+        if len(cov["samples"]) < max_samples and (r["nontrivial"] or not cov["samples"]):
+            cov["samples"].append({"program": r["src"], "paths": r["paths"], "accepting": r["accepting"], "queries": r["queries"],
+                                   "verdict": "no disagreement" if not r["findings"] else f"{len(r['findings'])} disagreement(s): " + str(r["findings"][0]["what"])[:200]})
         for j in r["findings"]:
             cov["disagreements_checked"] += 1
             if not j["replayed"]:
